@@ -95,7 +95,7 @@ class HSFZDiscoverer(UDSDiscoveryScanner):
     async def main(self) -> None:
         found = []
         gen = (
-            range(self.config.stop + 1, self.config.start)
+            range(self.config.stop, self.config.start - 1, -1)
             if self.config.reversed
             else range(self.config.start, self.config.stop + 1)
         )
